@@ -70,6 +70,7 @@ import "time"
 //@ func ValidateRequest
 //@   requires req != nil
 //@   ensures iff: (result == nil) == ((req.LVM>>6 == 0 || req.LVM>>6 == 3) && ((2 <= (req.LVM>>3)&7 && (req.LVM>>3)&7 <= 4 && req.LVM&7 == 3) || ((req.LVM>>3)&7 == 1 && req.LVM&7 == 0)))
+//@   ensures noreflection: req.LVM&7 == 4 ==> result != nil
 
 //@ func (*Packet).LeapIndicator
 //@   requires p != nil
